@@ -376,13 +376,21 @@ Theorem C07_provider_nonobject_inputs : forall W f E pname inputs xbase id s p,
 Proof. exact provider_nonobject_inputs. Qed.
 
 (* imports: a failing / missing / unparsable / faulted load, or an import cycle (self-import included), costs
-   one diagnostic and is skipped; the remaining imports are processed with the same accumulated base *)
+   one diagnostic and is skipped; the remaining imports are processed with the same accumulated base; the failure is
+   entered in the imports table (eval.go: imported{failed: true}) ... *)
 Theorem C07_import_failure_skipped : forall W ev n merge rest base my s,
   alookup n (imps s) = None ->
   load_result W (fst (call W s)) n = LoadFail \/ load_result W (fst (call W s)) n = LoadNoParse ->
   env_go W ev ((n, merge) :: rest) base my s
-  = env_go W ev rest base my (bump (snd (emit (EvLoad n) (snd (call W s))))).
+  = env_go W ev rest base my
+      (snd (imps_set n {| is_evaluating := false; is_value := None |} (bump (snd (emit (EvLoad n) (snd (call W s))))))).
 Proof. exact import_failure_skipped. Qed.
+
+(* ... so that a later listing of the same name costs nothing at all: no load, no call, no event, no diagnostic *)
+Theorem C07_import_remembered_failure_skipped : forall W ev n merge rest base my s i,
+  alookup n (imps s) = Some i -> is_evaluating i = false -> is_value i = None ->
+  env_go W ev ((n, merge) :: rest) base my s = env_go W ev rest base my s.
+Proof. exact import_remembered_failure_skipped. Qed.
 
 Theorem C07_load_fault_fails : forall W n s, w_fault W = Some (calls s) -> load_result W (fst (call W s)) n = LoadFail.
 Proof. exact load_result_fault. Qed.
